@@ -215,7 +215,7 @@ class ErrorMetadataBase(object):
       to_ret = preferred_type(self.get_message())
     if preferred_type in KNOWN_STRING_CONSTRUCTOR_ERRORS:
       to_ret = preferred_type(self.get_message())
-    elif preferred_type is KeyError:
+    elif preferred_type in (KeyError, MultilineMessageKeyError):
       to_ret = MultilineMessageKeyError(self.get_message(), self.cause_message)
 
     if to_ret is not None:
